@@ -169,8 +169,14 @@ def family_instances(meta, enums):
     if pol == 'all-pairs':
         return [(i, j) for i in range(n) for j in range(n)]
     s = set()
-    for i in range(n):
-        s.update([(i, 0), (0, i), (i, (i + 1) % n), (i, i)])
+    if pol == 'ring':
+        for i in range(n):
+            s.update([(i, (i + 1) % n), (i, i)])
+    else:  # 'few'
+        for i in range(min(n, 3)):
+            s.add((i, (i + 1) % n))
+        s.add((n - 1, n - 1))
+        s.add((0, 0))
     return sorted(s)
 
 
